@@ -11,8 +11,7 @@ Definition err_code (e : err) : nat :=
 Definition err_eqb (a b : err) : bool := Nat.eqb (err_code a) (err_code b).
 
 Definition taint_code (t : taint) : nat :=
-  match t with TSetReverse => 3 | TRemFlag => 4 | TDelNested => 5
-             | TNewPk => 6 | TDelCreated => 7 | TInconsistent => 8 end.
+  match t with TInconsistent => 8 end.
 
 Record osnap := mkos {
   os_cls : nat; os_status : status; os_wbits : option N; os_savepos : option nat;
@@ -71,10 +70,6 @@ Fixpoint check_from (sch : schema) (s : state) (n : nat) (ops : list (option (na
       let bad_err := if opt_eqb err_eqb (o_err out) (fst ex) then [] else [(n, 0)] in
       let bad_view := match snd ex with Some sn => map (fun k => (n, k)) (check_snap sch (o_state out) sn) | None => [] end in
       let tainted := match o_err out, o_taints out with Some _, _ :: _ => true | _, _ => false end in
-      (* TRemFlag: the implementation's undo itself crashes there (AttributeError on setdata.added = None, a distinction the model
-         does not keep): only "both fail" is compared *)
-      let exempt := tainted && existsb (fun t => Nat.eqb (taint_code t) 4) (o_taints out) in
-      if exempt then (match fst ex with Some _ => [] | None => [(n, 0)] end) else
       bad_err ++ bad_view ++ (if tainted || negb (is_empty bad_err) then [] else check_from sch (o_state out) (S n) ops' exps')
   | _, _ => []
   end.
